@@ -123,6 +123,15 @@ impl Read for ChunkReader {
     }
 }
 
+impl io::Write for ChunkReader {
+    fn write(&mut self, buf: &[u8]) -> io::Result<usize> {
+        Ok(buf.len())
+    }
+    fn flush(&mut self) -> io::Result<()> {
+        Ok(())
+    }
+}
+
 pub struct AsyncChunkReader {
     pub st: ChunkState,
     /// return one spurious Pending (with an immediate wake) before every read
@@ -147,6 +156,18 @@ impl AsyncRead for AsyncChunkReader {
         let want = buf.remaining();
         let s = self.st.next(want)?;
         buf.put_slice(s);
+        Poll::Ready(Ok(()))
+    }
+}
+
+impl tokio::io::AsyncWrite for AsyncChunkReader {
+    fn poll_write(self: Pin<&mut Self>, _cx: &mut Context<'_>, data: &[u8]) -> Poll<io::Result<usize>> {
+        Poll::Ready(Ok(data.len()))
+    }
+    fn poll_flush(self: Pin<&mut Self>, _cx: &mut Context<'_>) -> Poll<io::Result<()>> {
+        Poll::Ready(Ok(()))
+    }
+    fn poll_shutdown(self: Pin<&mut Self>, _cx: &mut Context<'_>) -> Poll<io::Result<()>> {
         Poll::Ready(Ok(()))
     }
 }
